@@ -84,6 +84,10 @@ CHECKS = {
             "DESIGN.md §3 C05",
             "Every Content-Location = 9 prefixes (file:///, file://host/, http://h/, x:, x:/, x://h/, none, /, //) x every sequence of at most 3 (quick) / 5 (thorough) segments from {n, ., .., empty, %2e%2e, ..%2f, a\\..\\b, an absolute path inside the sandbox} is put in a harness-written FDT and delivered into ObjectWriterFS for the outcomes complete, error (MD5 mismatch) and interrupted; afterwards the sandbox tree minus the destination directory (7 levels of ancestors and siblings holding canary and same-named victim files) must be bit-identical.",
             "Trusted: the tree scan (an escape above the 7 sandbox levels is impossible with at most 5 segments plus the prefixes used); random strings are not used; symlinks planted inside the destination are out of scope."),
+    "C10": ("model_checking", "explicit-state BFS over the real Sender collecting every emitted FDT instance with its publication-time reference set, documents then read by an independent XML parser (expat) and by flute's own receiver", "statex",
+            "DESIGN.md §3 C10",
+            "All histories over {add, remove, publish, set_complete, drain, tick 0.1 s / duration/2 / duration} to depth 5 (quick) / 6 (thorough, state cap reported) plus a directed family (add n, publish, read i packets, remove object k possibly in flight, publish, drain for every n, k, i), for publish mode x fdt_start_id {0,1,2^20-2} x fdt_duration {1,5,10,11,30,31,3600 s, 2 days} x FDT cenc x sub-second publish phase (fixed covering sub-grids per tier), over a catalogue of 4 objects whose metadata contain quotes, &, <, >, ]]>, non-ASCII and 300-character strings, per-object OTI incl. RaptorQ, every cache directive, groups, ETag, cenc. Every completely emitted instance is reassembled and inflated from its TOI-0 packets by rfc.rs; ids must be +1 mod 2^20, one id never denotes two contents, after every drain the newest instance is unexpired; each distinct document is parsed by expat and by flute's receiver and must list exactly the reference set with every attribute unaltered and Expires = publish second + duration.",
+            "Trusted: rfc.rs reassembly, expat, the reference set (API results + Subscriber events at the log position of the publication), one queue with multiplex 1 so that at most one publication happens per read; tab/CR/LF excluded from the strings (DESIGN §5)."),
 }
 
 NOT_YET = {}
